@@ -251,7 +251,7 @@ func c05Gen(r *Rng, tier string, i int) Sx {
 	case 1:
 		n = r.Range(41, 63)
 	}
-	return c05Make(r, n, r.Intn(n), r.Intn(4), r.Intn(3), true)
+	return c05Make(r, n, r.Intn(n), r.Intn(5), r.Intn(3), true)
 }
 
 // n = chain length (incl. main), pos = aborting handler, kind = abort flavour, when = before/after/without Next
@@ -271,6 +271,8 @@ func c05Make(r *Rng, n, pos, kind, when int, isab bool) Sx {
 			return []Sx{marker, L(A("abortthen"))}
 		case 2:
 			return []Sx{marker, L(A("abs"), I([]int{401, 403, 500, 204}[r.Intn(4)]))}
+		case 4: // two aborts in one handler: the later AbortWithStatus still decides the status
+			return []Sx{marker, L(A("abort")), L(A("abs"), I([]int{401, 503}[r.Intn(2)]))}
 		default:
 			return []Sx{marker, L(A("abs"), I(403)), L(A("w"), L(A("st"), I(418)))}
 		}
@@ -311,6 +313,9 @@ func c05Make(r *Rng, n, pos, kind, when int, isab bool) Sx {
 			}
 			if isab && r.Chance(1, 3) {
 				ops = append(ops, L(A("isab")))
+			}
+			if callsNext && k < pos && r.Chance(1, 8) { // a resumed outer handler aborts again, with a status
+				ops = append(ops, L(A("abs"), I([]int{503, 409}[r.Intn(2)])))
 			}
 			if r.Chance(1, 6) {
 				ops = append(ops, L(A("w"), L(A("wr"), SB([]byte("x")))))
